@@ -131,4 +131,173 @@ mod verif_c13 {
         assert!(SerializeMap::serialize_value(&mut s, &v).is_err());
         kani::cover!(true);
     }
+
+    // ---- Serialize for Any: a sequence re-emits its elements unchanged, in order --------------------------------------
+    pub static mut SEQ_LOG: [Ev; 4] = [Ev::None_; 4];
+    pub static mut SEQ_N: usize = 0;
+    pub static mut SEQ_HINT: Option<usize> = None;
+    pub static mut SEQ_ENDED: bool = false;
+    pub struct SeqRec;
+    pub struct SeqRecC;
+    type ImpS = serde::ser::Impossible<(), MockErr>;
+    impl serde::Serializer for SeqRec {
+        type Ok = ();
+        type Error = MockErr;
+        type SerializeSeq = SeqRecC;
+        type SerializeTuple = ImpS;
+        type SerializeTupleStruct = ImpS;
+        type SerializeTupleVariant = ImpS;
+        type SerializeMap = ImpS;
+        type SerializeStruct = ImpS;
+        type SerializeStructVariant = ImpS;
+        fn serialize_seq(self, len: Option<usize>) -> Result<SeqRecC, MockErr> {
+            unsafe {
+                SEQ_HINT = len;
+                SEQ_N = 0;
+                SEQ_ENDED = false;
+            }
+            Ok(SeqRecC)
+        }
+        fn serialize_bool(self, _: bool) -> Result<(), MockErr> { Err(MockErr) }
+        fn serialize_i8(self, _: i8) -> Result<(), MockErr> { Err(MockErr) }
+        fn serialize_i16(self, _: i16) -> Result<(), MockErr> { Err(MockErr) }
+        fn serialize_i32(self, _: i32) -> Result<(), MockErr> { Err(MockErr) }
+        fn serialize_i64(self, _: i64) -> Result<(), MockErr> { Err(MockErr) }
+        fn serialize_u8(self, _: u8) -> Result<(), MockErr> { Err(MockErr) }
+        fn serialize_u16(self, _: u16) -> Result<(), MockErr> { Err(MockErr) }
+        fn serialize_u32(self, _: u32) -> Result<(), MockErr> { Err(MockErr) }
+        fn serialize_u64(self, _: u64) -> Result<(), MockErr> { Err(MockErr) }
+        fn serialize_f32(self, _: f32) -> Result<(), MockErr> { Err(MockErr) }
+        fn serialize_f64(self, _: f64) -> Result<(), MockErr> { Err(MockErr) }
+        fn serialize_char(self, _: char) -> Result<(), MockErr> { Err(MockErr) }
+        fn serialize_str(self, _: &str) -> Result<(), MockErr> { Err(MockErr) }
+        fn serialize_bytes(self, _: &[u8]) -> Result<(), MockErr> { Err(MockErr) }
+        fn serialize_none(self) -> Result<(), MockErr> { Err(MockErr) }
+        fn serialize_some<T: ?Sized + serde::Serialize>(self, _: &T) -> Result<(), MockErr> { Err(MockErr) }
+        fn serialize_unit(self) -> Result<(), MockErr> { Err(MockErr) }
+        fn serialize_unit_struct(self, _: &'static str) -> Result<(), MockErr> { Err(MockErr) }
+        fn serialize_unit_variant(self, _: &'static str, _: u32, _: &'static str) -> Result<(), MockErr> { Err(MockErr) }
+        fn serialize_newtype_struct<T: ?Sized + serde::Serialize>(self, _: &'static str, _: &T) -> Result<(), MockErr> { Err(MockErr) }
+        fn serialize_newtype_variant<T: ?Sized + serde::Serialize>(self, _: &'static str, _: u32, _: &'static str, _: &T) -> Result<(), MockErr> { Err(MockErr) }
+        fn serialize_tuple(self, _: usize) -> Result<ImpS, MockErr> { Err(MockErr) }
+        fn serialize_tuple_struct(self, _: &'static str, _: usize) -> Result<ImpS, MockErr> { Err(MockErr) }
+        fn serialize_tuple_variant(self, _: &'static str, _: u32, _: &'static str, _: usize) -> Result<ImpS, MockErr> { Err(MockErr) }
+        fn serialize_map(self, _: Option<usize>) -> Result<ImpS, MockErr> { Err(MockErr) }
+        fn serialize_struct(self, _: &'static str, _: usize) -> Result<ImpS, MockErr> { Err(MockErr) }
+        fn serialize_struct_variant(self, _: &'static str, _: u32, _: &'static str, _: usize) -> Result<ImpS, MockErr> { Err(MockErr) }
+    }
+    impl SerializeSeq for SeqRecC {
+        type Ok = ();
+        type Error = MockErr;
+        fn serialize_element<T: ?Sized + serde::Serialize>(&mut self, v: &T) -> Result<(), MockErr> {
+            let e = emitted(v);
+            unsafe {
+                if SEQ_N < 4 {
+                    SEQ_LOG[SEQ_N] = e;
+                }
+                SEQ_N += 1;
+            }
+            Ok(())
+        }
+        fn end(self) -> Result<(), MockErr> {
+            unsafe { SEQ_ENDED = true };
+            Ok(())
+        }
+    }
+
+    #[kani::proof]
+    #[kani::unwind(4)]
+    fn any_seq_reserializes_elements_in_order() {
+        let a: u8 = kani::any();
+        let b: i64 = kani::any();
+        let v = Any(Inner::Seq(vec![Any(Inner::U8(a)), Any(Inner::I64(b))]));
+        assert!(serde::Serialize::serialize(&v, SeqRec).is_ok());
+        unsafe {
+            assert!(SEQ_HINT == Some(2) && SEQ_N == 2 && SEQ_ENDED);
+            assert!(SEQ_LOG[0] == Ev::U8(a) && SEQ_LOG[1] == Ev::I64(b));
+        }
+        std::mem::forget(v);
+        kani::cover!(true);
+    }
+
+    // ---- externally tagged variants: {"<variant>": payload} as a single-entry map ------------------------------------------
+    fn single_entry<'a>(a: &'a Any) -> Option<(&'a Any, &'a Any)> {
+        match &a.0 {
+            Inner::Map(m) if m.len() == 1 => m.iter().next(),
+            _ => None,
+        }
+    }
+    fn is_str(a: &Any, lit: &[u8]) -> bool {
+        matches!(&a.0, Inner::String(s) if s.as_bytes() == lit)
+    }
+
+    #[kani::proof]
+    #[kani::unwind(6)]
+    fn newtype_variant_is_single_entry_map() {
+        let v: i64 = kani::any();
+        let out = AnySerializer.serialize_newtype_variant("E", 3, "Var", &v).unwrap();
+        match single_entry(&out) {
+            Some((k, val)) => assert!(is_str(k, b"Var") && is_i64(val, v)),
+            None => assert!(false),
+        }
+        std::mem::forget(out);
+        kani::cover!(true);
+    }
+
+    #[kani::proof]
+    #[kani::unwind(6)]
+    fn tuple_variant_is_single_entry_map_of_seq() {
+        let a: u8 = kani::any();
+        let b: i64 = kani::any();
+        let mut s = AnySerializer.serialize_tuple_variant("E", 1, "Var", 2).unwrap();
+        SerializeTupleVariant::serialize_field(&mut s, &a).unwrap();
+        SerializeTupleVariant::serialize_field(&mut s, &b).unwrap();
+        let out = SerializeTupleVariant::end(s).unwrap();
+        match single_entry(&out) {
+            Some((k, val)) => {
+                assert!(is_str(k, b"Var"));
+                match &val.0 {
+                    Inner::Seq(v) => assert!(v.len() == 2 && is_u8(&v[0], a) && is_i64(&v[1], b)),
+                    _ => assert!(false),
+                }
+            }
+            None => assert!(false),
+        }
+        std::mem::forget(out);
+        kani::cover!(true);
+    }
+
+    #[kani::proof]
+    #[kani::unwind(6)]
+    fn map_serializer_entry_is_stored_as_that_pair() {
+        let k: i32 = kani::any();
+        let v: f64 = kani::any();
+        let mut s = AnySerializer.serialize_map(Some(1)).unwrap();
+        SerializeMap::serialize_key(&mut s, &k).unwrap();
+        SerializeMap::serialize_value(&mut s, &v).unwrap();
+        assert!(s.key.is_none());
+        let out = SerializeMap::end(s).unwrap();
+        match single_entry(&out) {
+            // non-string keys keep their type inside the Any
+            Some((kk, vv)) => assert!(matches!(kk.0, Inner::I32(x) if x == k) && is_f64(vv, v)),
+            None => assert!(false),
+        }
+        std::mem::forget(out);
+        kani::cover!(true);
+    }
+
+    #[kani::proof]
+    #[kani::unwind(6)]
+    fn struct_serializer_field_is_stored_under_its_name() {
+        let v: i64 = kani::any();
+        let mut s = AnySerializer.serialize_struct("S", 1).unwrap();
+        SerializeStruct::serialize_field(&mut s, "fld", &v).unwrap();
+        let out = SerializeStruct::end(s).unwrap();
+        match single_entry(&out) {
+            Some((kk, vv)) => assert!(is_str(kk, b"fld") && is_i64(vv, v)),
+            None => assert!(false),
+        }
+        std::mem::forget(out);
+        kani::cover!(true);
+    }
 }
